@@ -90,10 +90,15 @@ DoStore(S, a) == LET ob == S.objs[a.x]
 \* x[j] = value: in place, through the buffer
 DoSetItem(S, a) == LET ob == S.objs[a.x]  q == Q(a.k4, ob.fmt, ob.cfg)
                    IN SetSt(Poke(S, a.x, a.j, q.code), a.x, OrSt(ob.st, FoldQ(<<q>>)))
-\* y = x[j:j+1]: a VIEW of the values; own copy of the Config, fresh status
+\* y = x[sel]: a VIEW of the values (sel: "one" = x[j:j+1], "rev" = x[::-1] strided, "all" = x[:]); own copy of the Config, fresh status
+ViewMap(ob, a) == CASE a.sel = "one" -> <<a.j>> [] a.sel = "rev" -> [k \in DOMAIN ob.codes |-> Len(ob.codes) + 1 - k]
+                    [] a.sel = "all" -> [k \in DOMAIN ob.codes |-> k]
 DoGetItem(S, a) == LET ob == S.objs[a.x]
-                       S1 == Put(Forget(S, a.y), a.y, [fmt |-> ob.fmt, codes |-> <<ob.codes[a.j]>>, cfg |-> ob.cfg, st |-> Clean])
-                   IN [S1 EXCEPT !.mem = Join(S1.mem, <<a.y, 1>>, <<a.x, a.j>>)]
+                       mp == ViewMap(ob, a)
+                       S1 == Put(Forget(S, a.y), a.y, [fmt |-> ob.fmt, codes |-> [k \in DOMAIN mp |-> ob.codes[mp[k]]], cfg |-> ob.cfg, st |-> Clean])
+                       RECURSIVE link(_, _)
+                       link(T, k) == IF k = 0 THEN T ELSE link([T EXCEPT !.mem = Join(T.mem, <<a.y, k>>, <<a.x, mp[k]>>)], k - 1)
+                   IN link(S1, Len(mp))
 \* convert the codes of a source into format/config of a destination template
 ConvAll(codes, ts, td, c) == [j \in DOMAIN codes |-> N!Convert(codes[j], ts, td, c.rnd, c.ovf)]
 CodesOf(qs) == [j \in DOMAIN qs |-> qs[j].code]
@@ -152,6 +157,11 @@ DoBinOp(S, a) == LET ox == S.objs[a.x]  oy == S.objs[a.y]
 DoNeg(S, a) == LET ox == S.objs[a.x]
                    qs == [j \in DOMAIN ox.codes |-> N!Quantize(N!ValueOf(-ox.codes[j], ox.fmt), ox.fmt, "trunc", "saturate")]
                IN Put(Forget(S, a.z), a.z, [fmt |-> ox.fmt, codes |-> CodesOf(qs), cfg |-> DefaultCfg, st |-> FoldQ(qs)])
+\* y = x >> 1 with shifting = trunc/keep, y = ~x: built on a DEEP copy of x (Config and status copied, flags included)
+DoRShiftKeep(S, a) == LET ox == S.objs[a.x] IN
+   Put(Forget(S, a.y), a.y, [ox EXCEPT !.codes = [k \in DOMAIN ox.codes |-> ox.codes[k] \div 2]])
+DoInvert(S, a) == LET ox == S.objs[a.x] IN
+   Put(Forget(S, a.y), a.y, [ox EXCEPT !.codes = [k \in DOMAIN ox.codes |-> N!FromImage(N!PatToNat(N!PatNot(N!Pattern(ox.codes[k], ox.fmt.w))), ox.fmt)]])
 DoDrop(S, a) == Forget(Put(S, a.x, NULL), a.x)
 
 Step(S, a) == CASE a.act = "New" -> DoNew(S, a)           [] a.act = "Store" -> DoStore(S, a)
@@ -163,6 +173,7 @@ Step(S, a) == CASE a.act = "New" -> DoNew(S, a)           [] a.act = "Store" -> 
                 [] a.act = "Reset" -> DoReset(S, a)       [] a.act = "SetCfg" -> DoSetCfg(S, a)
                 [] a.act = "SetCfgBad" -> DoSetCfgBad(S, a)
                 [] a.act = "BinOp" -> DoBinOp(S, a)       [] a.act = "Neg" -> DoNeg(S, a)
+                [] a.act = "RShiftKeep" -> DoRShiftKeep(S, a) [] a.act = "Invert" -> DoInvert(S, a)
                 [] a.act = "Drop" -> DoDrop(S, a)
 \* callbacks a recorder registered on the written object sees during the step
 CbStep(S, a) == CASE a.act = "Store" -> CbOf(FoldQ([j \in DOMAIN a.ks |-> Q(a.ks[j], S.objs[a.x].fmt, S.objs[a.x].cfg)]))
@@ -185,7 +196,8 @@ Enabled(S) ==
      IF "Store" \in Acts THEN UNION { { [act |-> "Store", x |-> x, ks |-> IF LenOf(S, x) = 2 THEN <<k1, k2>> ELSE <<k1>>] :
           k1 \in Grid(S.objs[x].fmt), k2 \in (IF LenOf(S, x) = 2 THEN Grid(S.objs[x].fmt) ELSE {0}) } : x \in Live(S) } ELSE {},
      IF "SetItem" \in Acts THEN UNION { { [act |-> "SetItem", x |-> x, j |-> j, k4 |-> k] : j \in DOMAIN S.objs[x].codes, k \in Grid(S.objs[x].fmt) } : x \in Live(S) } ELSE {},
-     IF "GetItem" \in Acts THEN UNION { { [act |-> "GetItem", y |-> y, x |-> x, j |-> j] : y \in { z \in Obj : Free(S, z) }, j \in DOMAIN S.objs[x].codes } :
+     IF "GetItem" \in Acts THEN UNION { { [act |-> "GetItem", y |-> y, x |-> x, j |-> j, sel |-> "one"] : y \in { z \in Obj : Free(S, z) }, j \in DOMAIN S.objs[x].codes }
+                                        \cup { [act |-> "GetItem", y |-> y, x |-> x, j |-> 0, sel |-> sl] : y \in { z \in Obj : Free(S, z) }, sl \in {"rev", "all"} } :
           x \in { z \in Live(S) : LenOf(S, z) = 2 } } ELSE {},
      IF "CtorLike" \in Acts THEN { r \in { [act |-> "CtorLike", y |-> y, x |-> x, t |-> t] : y \in { z \in Obj : Free(S, z) }, x \in Live(S), t \in Live(S) } : r.x # r.t } ELSE {},
      IF "Like" \in Acts THEN { r \in { [act |-> "Like", y |-> y, x |-> x, t |-> t] : y \in { z \in Obj : Free(S, z) }, x \in Live(S), t \in Live(S) } : r.x # r.t } ELSE {},
@@ -201,6 +213,8 @@ Enabled(S) ==
      IF "BinOp" \in Acts THEN { [act |-> "BinOp", z |-> z, op |-> op, x |-> x, y |-> y] : z \in { v \in Obj : Free(S, v) }, op \in {"add", "mul"},
           x \in Live(S), y \in Live(S) } ELSE {},
      IF "Neg" \in Acts THEN { [act |-> "Neg", z |-> z, x |-> x] : z \in { v \in Obj : Free(S, v) }, x \in Live(S) } ELSE {},
+     IF "RShiftKeep" \in Acts THEN { [act |-> "RShiftKeep", y |-> y, x |-> x] : y \in { z \in Obj : Free(S, z) }, x \in Live(S) } ELSE {},
+     IF "Invert" \in Acts THEN { [act |-> "Invert", y |-> y, x |-> x] : y \in { z \in Obj : Free(S, z) }, x \in Live(S) } ELSE {},
      IF "Drop" \in Acts THEN { [act |-> "Drop", x |-> x] : x \in Live(S) } ELSE {}
    }
 
@@ -230,7 +244,7 @@ NoSharedConfig == st.csh = {} /\ st.ssh = {}
 ViewsOnly == \A b \in st.mem : \A e1 \in b, e2 \in b : st.objs[e1[1]].codes[e1[2]] = st.objs[e2[1]].codes[e2[2]]
 \* C20 (behavioural): a step changes what OTHER objects show only through shared memory of an indexed write
 Target(l) == IF l.act \in {"New", "Store", "SetItem", "Resize", "Reset", "SetCfg", "SetCfgBad", "Assign", "Drop"} THEN l.x
-             ELSE IF l.act \in {"GetItem", "CtorLike", "Like", "LikeShallow", "CopyShallow", "DeepCopy"} THEN l.y
+             ELSE IF l.act \in {"GetItem", "CtorLike", "Like", "LikeShallow", "CopyShallow", "DeepCopy", "RShiftKeep", "Invert"} THEN l.y
              ELSE IF l.act \in {"BinOp", "Neg"} THEN l.z ELSE NULL
 NonInterference == [][ \A p \in Obj : (p # Target(last') /\ st.objs[p] # NULL /\ st'.objs[p] # st.objs[p])
                           => (last'.act = "SetItem" /\ \E b \in st.mem : <<last'.x, last'.j>> \in b /\ \E k \in DOMAIN st.objs[p].codes : <<p, k>> \in b) ]_vars
@@ -241,7 +255,7 @@ ViewWriteThrough == [][ (last'.act = "SetItem") =>
 \* C20: an invalid configuration value changes nothing
 BadConfigRejected == [][ last'.act = "SetCfgBad" => st' = st ]_vars
 \* C04: flags are sticky until reset()
-Creates(l) == l.act \in {"New", "GetItem", "CtorLike", "Like", "LikeShallow", "CopyShallow", "DeepCopy", "BinOp", "Neg", "Drop"}
+Creates(l) == l.act \in {"New", "GetItem", "CtorLike", "Like", "LikeShallow", "CopyShallow", "DeepCopy", "BinOp", "Neg", "Drop", "RShiftKeep", "Invert"}
 Sticky == [][ \A p \in Obj : (/\ st.objs[p] # NULL /\ st'.objs[p] # NULL
                                /\ ~(Creates(last') /\ Target(last') = p)           \* p is the same object before and after
                                /\ last'.act # "Reset")
@@ -263,7 +277,7 @@ FlagIff == [][ last'.act \in {"Store", "SetItem"} =>
 \* C04: results of arithmetic carry the inaccuracy flag whenever an operand carried it
 InaccPropagates == [][ last'.act = "BinOp" => ((st.objs[last'.x].st.i \/ st.objs[last'.y].st.i) => st'.objs[last'.z].st.i) ]_vars
 \* C10/C20: deriving never changes the source
-SourceUnchanged == [][ last'.act \in {"CtorLike", "Like", "DeepCopy", "GetItem", "BinOp", "Neg"} =>
+SourceUnchanged == [][ last'.act \in {"CtorLike", "Like", "DeepCopy", "GetItem", "BinOp", "Neg", "RShiftKeep", "Invert"} =>
                          \A p \in Obj \ {Target(last')} : st'.objs[p] = st.objs[p] ]_vars
 \* export of behaviours for the replay harness: TLC evaluates invariants on every generated state, before duplicate
 \* detection, so this prints one behaviour per TRANSITION of the bounded model (a complete transition cover)
